@@ -609,6 +609,18 @@ func c13Prune(c *Ctx, prune *ssa.Function) {
 			c.Undecided("C13.4", "PruneToHeight: committed-chain exemption", p.InstrPos(ap), "the decision to report a block does not consult a locally built exemption set; idiom not recognised")
 			continue
 		}
+		// polarity: a block is reported when it is *not* what the exemption set holds for its view / hash
+		okPol := false
+		for mk0 := range maps {
+			for f := range facts {
+				if (strings.Contains(f.L, mk0) || strings.Contains(f.R, mk0)) && (f.Op == "!=" || f.Op == "false") {
+					okPol = true
+				}
+			}
+		}
+		c.Check(okPol, "C13.4/polarity", "PruneToHeight: reports the blocks that are not on the committed chain", p.InstrPos(ap),
+			"the report is reached only on the side of the test where the block differs from (is absent from) the committed chain's entry",
+			"the report is on the side of the test where the block IS the committed chain's entry: committed blocks are reported as abandoned and abandoned ones are not")
 		var tainted []string
 		nUpd := 0
 		sliceEnterHelpers, sliceProg = funcPkgPath(prune), p
